@@ -24,7 +24,7 @@ func genC05(t *rapid.T) C05Case {
 	o := ragen.GenOpt{
 		Rx:       ragen.RxOpt{Stress: 5, MaxDepth: 1},
 		MaxDepth: 2, MaxItems: 6, Flags: true, PrefixSuffix: true, Defs: true, DefsInPS: true,
-		Includes: true, IncludePS: true, IncludeDefs: true, Cmdline: true, IncludeInCmdline: true, StoreLoad: true, Noise: true,
+		Includes: true, Excepts: true, Pairs: true, IncludePS: true, IncludeDefs: true, Cmdline: true, IncludeInCmdline: true, StoreLoad: true, Noise: true,
 	}
 	if thorough() {
 		o.MaxDepth, o.MaxItems = 3, 8
@@ -43,6 +43,15 @@ func genC05(t *rapid.T) C05Case {
 		l := ragen.Line{K: ragen.KInclude, File: f}
 		g.Prog.Main = append(g.Prog.Main[:pos], append([]ragen.Line{l}, g.Prog.Main[pos:]...)...)
 		g.Labels["include"] = true
+	}
+	// the same file name in include/ and exclude/ with different content: include/ wins
+	if len(names) > 0 && rapid.IntRange(0, 3).Draw(t, "shadow") == 0 {
+		n := rapid.SampledFrom(names).Draw(t, "shadowed")
+		other := "exclude/" + strings.TrimPrefix(n, "include/")
+		if strings.HasPrefix(n, "include/") {
+			g.Prog.Files[other] = []ragen.Line{{K: ragen.KEntry, T: "shadow1"}, {K: ragen.KEntry, T: "shadow2"}}
+			g.Labels["same-name-in-include-and-exclude"] = true
+		}
 	}
 	if len(names) > 0 && rapid.IntRange(0, 7).Draw(t, "flagsvariant") == 0 {
 		c.Variant = "flags-in-include"
@@ -86,10 +95,12 @@ func reachable(p *ragen.Program) []string {
 					f += ".ra"
 				}
 				for _, d := range []string{"include/", "exclude/"} {
-					if sub, ok := p.Files[d+f]; ok && !seen[d+f] {
-						seen[d+f] = true
-						visit(sub)
-						break
+					if sub, ok := p.Files[d+f]; ok {
+						if !seen[d+f] {
+							seen[d+f] = true
+							visit(sub)
+						}
+						break // the include directory shadows the exclude directory
 					}
 				}
 			}
